@@ -31,6 +31,12 @@ Proof.
   inversion H as [|? ? H1 H2]; subst. cbn [flat_map]. apply bytes_ok_app. split; [exact H1|apply IH; exact H2].
 Qed.
 
+Lemma remaining_world_ok w : bytes_ok (remaining w) -> world_ok w.
+Proof.
+  unfold world_ok, remaining. induction (segs w) as [|s t IH]; intros H; [constructor|].
+  cbn [flat_map] in H. apply bytes_ok_app in H. constructor; [apply H|apply IH; apply H].
+Qed.
+
 (* the transport answers Pending without a wake-up for every non-empty buffer: the next client bytes
    are gated on replies that are not in the write log *)
 Definition gated (w : world) : Prop := forall L, L <> 0 -> t_poll_read L w = (PBlock, w).
@@ -169,6 +175,10 @@ Definition rinv (r : rstate) : Prop := rgood r /\ a_inv (abs (rsp r)).
 
 Lemma rinv_pinv r : rinv r -> pinv (rsp r).
 Proof. intros [[[G _] _] A]. split; assumption. Qed.
+
+(* ... which contains what the lock discipline of Async/ConnTotal.v (await_input_lock) needs *)
+Lemma pinv_lgood p : pinv p -> lgood p.
+Proof. intros [HRI (_ & _ & _ & Hb & _ & Hs)]. split; [exact HRI|]. split; [exact Hs|exact Hb]. Qed.
 
 (* end of the active stream: no stream is selected, or the parser stands in front of the header that
    terminates the active stream *)
